@@ -242,8 +242,56 @@ func largeText(n, every int) string {
 	return string(b)
 }
 
+// every length from 1 to 700 bytes: one Write at a line start that does not end in a line break,
+// the same ending in one, and the same after a complete line, with three prefixes and two line-break
+// patterns, the underlying writer stopping at every position
+func runLengths(c *core.Ctx, k int) {
+	for n := 1; n <= 700; n++ {
+		if n%8 != k {
+			continue
+		}
+		for _, every := range []int{0, 50} {
+			text := largeText(n, every)
+			for _, prefix := range []string{"  ", "// ", ">"} {
+				want, _ := ref(prefix, text)
+				for _, chunks := range [][]string{{text}, {text + "\n"}, {"x\n", text}} {
+					wantLen := len(want) + len(prefix) + 3
+					for budget := -1; budget < wantLen; budget++ {
+						if c.Expired() {
+							return
+						}
+						if budget >= 0 && n > 300 && budget%5 != 0 && budget < len(want)-8 {
+							continue // long texts: every fifth stop point and the last eight
+						}
+						in := Input{Prefix: prefix, Chunks: chunks, Budget: budget}
+						caseNo, run := c.Begin()
+						if c.Skip(caseNo, run, in) {
+							continue
+						}
+						ok, v := check(in)
+						c.Exec()
+						c.Validate()
+						c.Edge(int64(v.writes))
+						c.StateN(1)
+						c.NontrivialN(1)
+						if ok {
+							c.Outcome("length-sweep-accounted")
+						} else {
+							c.Outcome("FAIL:" + v.fingerprint)
+							c.Fail(caseNo, v.classes, "length:"+v.fingerprint, in, clip(v.expected), clip(v.observed))
+						}
+					}
+				}
+			}
+		}
+	}
+}
+
 func largeShards() []string {
 	var out []string
+	for k := 0; k < 8; k++ {
+		out = append(out, fmt.Sprintf("len/%d", k))
+	}
 	for li := range largeLens {
 		for ei := range largeEvery {
 			out = append(out, fmt.Sprintf("large/%d/%d", li, ei))
